@@ -161,6 +161,39 @@ func Ext(expr string) (res ExtRes) {
 	return
 }
 
+// SatRaw / ValRaw pass the caller's slice itself (no guard copy): for checks whose subject is what
+// the library does with the very slice object it was given.
+func SatRaw(expr string, allowed []string) (res SatRes) {
+	libCalls++
+	defer func() {
+		if r := recover(); r != nil {
+			libPanics++
+			res = SatRes{Panic: panicInfo(r)}
+		}
+	}()
+	ok, err := spdxexp.Satisfies(expr, allowed)
+	res.Ok = ok
+	if err != nil {
+		res.IsErr = true
+		res.Err = err.Error()
+	}
+	return
+}
+
+func ValRaw(list []string) (res ValRes) {
+	libCalls++
+	defer func() {
+		if r := recover(); r != nil {
+			libPanics++
+			res = ValRes{Panic: panicInfo(r)}
+		}
+	}()
+	ok, inv := spdxexp.ValidateLicenses(list)
+	res.Valid = ok
+	res.Invalid = append([]string{}, inv...)
+	return
+}
+
 // Valid1 is the validity verdict of a single string: 1 valid, 0 invalid, -1 panicked.
 func Valid1(s string) int {
 	r := Val([]string{s})
